@@ -100,6 +100,18 @@ def gen_pairs(api, tier, fams):
         elif fam == "del":
             for l in lay["del"]:
                 out += sp.delegates(l)
+        elif fam == "cmpx":
+            names = ["I8F0", "I4F4", "U8F8", "I16F16", "U0F32", "I32F32", "U64F0", "I64F64", "I0F128", "U64F64"]
+            if tier == "thorough":
+                names += ["U8F0", "I0F8", "I1F15", "U16F16", "I32F0", "U32F32", "I0F64", "U0F128", "I128F0", "I1F127"]
+            prims = ["i8", "u16", "i32", "u64", "i128", "u128", "f32", "f64"]
+            for a in names:
+                for b in names:
+                    if a != b:
+                        out += sp.cmp_cross(a, b)
+                for pr in prims:
+                    out += sp.cmp_cross(a, pr)
+                    out += sp.cmp_cross(pr, a)
         elif fam == "conv":
             for (s, d) in conv_pairs(tier):
                 out += sp.conv(s, d)
@@ -240,4 +252,4 @@ def run(report, tier, fams, label, select=None):
 
 def prime(tier):
     ctx = run_a.context(tier)
-    results(ctx["api"], tier, ["wrap", "pol", "mask", "rem", "div", "codec", "cmp", "del", "conv"])
+    results(ctx["api"], tier, ["wrap", "pol", "mask", "rem", "div", "codec", "cmp", "cmpx", "del", "conv"])
